@@ -1290,6 +1290,10 @@ where
         selector: impl Into<AttributeSelector>,
         f: impl FnMut(&mut Value<InMemDicomObject<D>, InMemFragment>),
     ) -> Result<(), AtAccessError> {
+        let selector: AttributeSelector = selector.into();
+        if selector.num_steps() == 1 {
+            self.invalidate_if_charset_changed(selector.last_tag());
+        }
         self.entry_at_mut(selector)
             .map(|e| e.update_value(f))
             .map(|_| {
